@@ -24,7 +24,8 @@ Every answer carries the counters of all instances: `… || steps=1,0,3 running=
 How `step` is bound on an instance (Model/StepBinding.lean); these objects live in a list of their own:
   bnew c f|-               instantiate chain class c; `f`: its `__init__` assigns `self.step = fn_f` before `super().__init__()`
                            → ok obj=K || b=<steps of all objects>
-  bstep k a1 a2 …          obj_k.step(a1, …) → ok|err Type log=<class bodies> fn=<f@steps/args,…> || b=…
+  bstep k a1 a2 …          obj_k.step(a1, …) → ok|err Type|err Runtime log=<class bodies> fn=<f@steps/args,…> || b=…
+                           (functions numbered 50 and up raise RuntimeError after making their record)
   bassign k f              obj_k.step = fn_f
   bdel k                   del obj_k.step            (err Attr if there is no instance attribute)
   buser k f                obj_k._user_step = fn_f
@@ -92,7 +93,7 @@ def stepLine (st : St) (ws : List String) : St × String :=
         let r := o.call args
         let os := st.objs.set k r.obj
         ({ st with objs := os },
-         (if r.ok then "ok" else "err Type") ++
+         (if r.ok then "ok" else if r.fns.any (fun c => raisesFn c.f) then "err Runtime" else "err Type") ++
            s!" log={",".intercalate (r.entries.map (fmtEntry []))} fn={",".intercalate (r.fns.map fmtFn)} || {fmtObjs os}")
       | none => bad
     | _, _ => bad
